@@ -1065,6 +1065,26 @@ def str_method_abstract(I, recv, name, args, st) -> list:
     if name in ("strip", "lstrip", "rstrip") and not args:
         if all(not any(c.isspace() for c in _chars_of(p)) for p in parts):
             return [(recv, st)]
+    if name in ("strip", "lstrip", "rstrip") and len(args) == 1 and isinstance(args[0], str) and isinstance(recv, SeqStr):
+        ps = list(parts)
+        drop = set(args[0])
+
+        def eat(from_end: bool) -> bool:
+            while ps:
+                cs = _chars_of(ps[-1] if from_end else ps[0])
+                if cs <= drop:
+                    ps.pop() if from_end else ps.pop(0)
+                elif not (cs & drop):
+                    return True
+                else:
+                    return False
+            return True
+
+        ok = (eat(True) if name in ("strip", "rstrip") else True) and (eat(False) if name in ("strip", "lstrip") else True)
+        if ok:
+            return [("".join(ps) if all(isinstance(x, str) for x in ps) else SeqStr(tuple(ps)), st)]
+        st.note(f"str.{name}({args[0]!r}) on a string whose end may or may not be stripped")
+        return [(Unknown(name), st)]
     if name == "replace" and len(args) == 2 and isinstance(args[0], str) and len(args[0]) == 1 and isinstance(args[1], str):
         a, b = args
         out: list = []
